@@ -260,4 +260,164 @@ theorem context_after_prefix (pre : List Line) (hv : valid pre = true) :
   simp only [List.append_nil] at h
   exact ⟨h.part, h.resi, h.afix⟩
 
+/-! ### non-vacuity: a concrete file with every feature meets the hypothesis -/
+
+/-- PART 2 with occupancy 31 left open at HKLF, a residue, a riding hydrogen, a FRAG block followed by an atom,
+    a peak between HKLF and END and one after END -/
+def demoFile : List Line :=
+  [.part 2 31, .resi "TOL" 3, .atom ⟨0, 1, 11, [4/100]⟩, .afix 43, .atom ⟨1, 2, 11, [-12/10]⟩, .frag, .atom ⟨2, 1, 11, []⟩,
+   .fend, .atom ⟨3, 3, 21/2, [2/100, 3/100, 4/100, -2/1000, 3/1000, -4/1000]⟩, .hklf, .atom ⟨4, 1, 11, [5/100, 3/2]⟩, .fin,
+   .other, .atom ⟨5, 1, 11, [5/100, 6/5]⟩]
+
+example : valid demoFile = true := by decide +kernel
+
+example : specAtoms demoFile =
+    [⟨0, 1, 31, [4/100, 0, 0, 0, 0, 0], 2, 0, 3, "TOL", false⟩,
+     ⟨1, 2, 31, [-12/10, 0, 0, 0, 0, 0], 2, 43, 3, "TOL", false⟩,
+     ⟨3, 3, 31, [2/100, 3/100, 4/100, -2/1000, 3/1000, -4/1000], 2, 43, 3, "TOL", false⟩,
+     ⟨4, 1, 11, [5/100, 3/2, 0, 0, 0, 0], 0, 0, 0, "", true⟩,
+     ⟨5, 1, 11, [5/100, 6/5, 0, 0, 0, 0], 0, 0, 0, "", true⟩] := by decide +kernel
+
+example : observe (run demoFile) = (specAtoms demoFile).map some := atoms_match_spec demoFile (by decide +kernel)
+
+/-! ### the code before the fixes: the same statement is false -/
+
+/-- the smallest witness: `PART 2 / atom / HKLF` — the code of commit e475fe2 sets `part.n = 0` on the object the
+    atom refers to, so the atom reads PART 0 after parsing. (Replayed on the implementation by the harness: the
+    bounded-exhaustive stream contains exactly this file.) -/
+def witnessFile : List Line := [.part 2 11, .atom ⟨0, 1, 11, [4/100]⟩, .hklf]
+
+theorem bug_witness : observe (runBug witnessFile) ≠ (specAtoms witnessFile).map some := by decide +kernel
+
+/-- the same file through the repaired step -/
+example : observe (run witnessFile) = (specAtoms witnessFile).map some := by decide +kernel
+
+/-- second witness: an AFIX left open swallows HKLF (the `elif` chain is never entered), a peak listed between
+    HKLF and END is then not a Q-peak, and the PART occupancy lands on it -/
+theorem bug_witness_afix_hklf :
+    observe (runBug [.part 1 21, .afix 43, .atom ⟨0, 2, 11, [-12/10]⟩, .hklf, .atom ⟨1, 1, 11, [5/100, 3/2]⟩]) ≠
+      (specAtoms [.part 1 21, .afix 43, .atom ⟨0, 2, 11, [-12/10]⟩, .hklf, .atom ⟨1, 1, 11, [5/100, 3/2]⟩]).map some := by
+  decide +kernel
+
+/-- the hypothesis `valid` is needed (Q-peak rule): an ordinary atom line between HKLF and END is not flagged
+    by the code (no peak height), while it is "listed after HKLF" -/
+example : observe (run [.hklf, .atom ⟨0, 1, 11, [4/100]⟩]) ≠ (specAtoms [.hklf, .atom ⟨0, 1, 11, [4/100]⟩]).map some := by
+  decide +kernel
+
+/-! ### element lookup -/
+
+/-- **element_lookup** — for a scattering-factor number inside the table, `Atom.element` is the entry at that
+    (1-based) position -/
+theorem element_lookup (table : List String) (n : Int) (h1 : 1 ≤ n) (h2 : n ≤ table.length) :
+    some (sfac2elem table n) = specElement table n := by
+  have hn0 : ¬ n = 0 := by omega
+  have hneg : ¬ n < 0 := by omega
+  have hi : ¬ n - 1 < 0 := by omega
+  have hlt : (n - 1).toNat < table.length := by omega
+  simp only [sfac2elem, specElement, hn0, hneg, hi, if_false, h1, if_true]
+  rw [List.getElem?_eq_getElem hlt]
+
+example : some (sfac2elem ["C", "H", "O"] 3) = specElement ["C", "H", "O"] 3 := element_lookup _ _ (by decide) (by decide)
+/-- outside the table the code answers '' (0, too large) or counts from the end (negative) -/
+example : sfac2elem ["C", "H", "O"] 4 = "" ∧ sfac2elem ["C", "H", "O"] 0 = "" ∧ sfac2elem ["C", "H", "O"] (-1) = "O" := by
+  decide +kernel
+
+/-! ### derived views -/
+
+theorem observed_atoms (file : List Line) (hv : valid file = true) :
+    (observe (run file)).filterMap id = specAtoms file := by
+  rw [atoms_match_spec file hv]
+  induction specAtoms file with
+  | nil => rfl
+  | cons a t ih => simp [ih]
+
+/-- **derived_views** — hydrogen / Q-peak / riding lists, residue numbers and the atoms of a class, computed from
+    the parsed atoms, are the corresponding filters of the specification's atom list -/
+theorem derived_views (file : List Line) (hv : valid file = true) (table : List String) (c : String) :
+    let got := viewAtoms table ((observe (run file)).filterMap id)
+    let want := viewAtoms table (specAtoms file)
+    View.hydrogenAtoms got = want.filter View.isHydrogen ∧
+    View.qPeaks got = want.filter (·.obs.qpeak) ∧
+    View.ridingAtoms got = (want.filter View.isHydrogen).filter (fun a => decide (a.obs.afix > 0)) ∧
+    View.residues got = View.residues want ∧
+    View.atomsInClass got c = View.atomsInClass want c := by
+  rw [observed_atoms file hv]
+  exact ⟨rfl, rfl, rfl, rfl, rfl⟩
+
+theorem foldl_add_zero (l : List Rat) (h : ∀ x ∈ l, x = 0) (acc : Rat) : l.foldl (· + ·) acc = acc := by
+  induction l generalizing acc with
+  | nil => rfl
+  | cons x t ih =>
+    have hx : x = 0 := h x (by simp)
+    rw [List.foldl_cons, hx, Rat.add_zero]
+    exact ih (fun y hy => h y (by simp [hy])) acc
+
+theorem tailSum_zero (u : List Rat) (h : View.hasAniso u = false) : View.tailSum u = 0 := by
+  unfold View.tailSum
+  apply foldl_add_zero
+  intro x hx
+  simp only [View.hasAniso] at h
+  have := List.any_eq_false.mp h x hx
+  simpa using this
+
+/-- full-strength statement of the anisotropic count — FALSE for the code (known finding
+    `C03|view|n_aniso|with-qpeaks`: peaks, whose second "displacement value" is the peak height, are counted) -/
+def nAnisoStatement : Prop := ∀ l : List ViewAtom, View.nAniso l = View.specNAniso l
+
+/-- **n_aniso_partial** — without Q-peaks in the list (and with anisotropic values whose sum exceeds the code's
+    threshold 1e-5, true of every physically meaningful U) the count is the number of anisotropic atoms -/
+theorem n_aniso_partial (l : List ViewAtom) (hq : ∀ a ∈ l, a.obs.qpeak = false)
+    (hu : ∀ a ∈ l, View.hasAniso a.obs.uvals = true → View.tailSum a.obs.uvals > 1 / 100000) :
+    View.nAniso l = View.specNAniso l := by
+  unfold View.nAniso View.specNAniso
+  congr 1
+  apply List.filter_congr
+  intro a ha
+  rw [hq a ha]
+  cases hh : View.hasAniso a.obs.uvals with
+  | true => simpa using hu a ha hh
+  | false =>
+    rw [tailSum_zero _ hh]
+    decide +kernel
+
+theorem n_aniso_fails_on : ¬ nAnisoStatement := by
+  intro h
+  have := h [⟨⟨0, 1, 11, [5/100, 3/2, 0, 0, 0, 0], 0, 0, 0, "", true⟩, "C"⟩]
+  revert this
+  decide +kernel
+
+/-- **n_iso_spec** — the isotropic count is the number of non-peak atoms with a single displacement value,
+    provided peaks carry a height and anisotropic values do not sum to exactly zero -/
+theorem n_iso_spec (l : List ViewAtom) (hq : ∀ a ∈ l, a.obs.qpeak = true → View.hasAniso a.obs.uvals = true)
+    (hu : ∀ a ∈ l, View.hasAniso a.obs.uvals = true → View.tailSum a.obs.uvals ≠ 0) :
+    View.nIso l = View.specNIso l := by
+  unfold View.nIso View.specNIso
+  congr 1
+  apply List.filter_congr
+  intro a ha
+  cases hh : View.hasAniso a.obs.uvals with
+  | true => simpa using hu a ha hh
+  | false =>
+    rw [tailSum_zero _ hh]
+    cases hqq : a.obs.qpeak with
+    | false => simp
+    | true => rw [hq a ha hqq] at hh; cases hh
+
+example : View.nAniso (viewAtoms ["C", "H", "O"] (specAtoms demoFile)) = 3 ∧
+    View.specNAniso (viewAtoms ["C", "H", "O"] (specAtoms demoFile)) = 1 := by decide +kernel
+
+/-! ### RESI decoding -/
+
+/-- **resi_decode_spec** — for every form the syntax allows, with arbitrary class, number, alias and chain, the
+    decoder returns class = the word, number = the first number (or the one behind `chain:`), alias = the second -/
+theorem resi_decode_spec (toks : List RTok) (h : resiFormOK toks = true) : resiDecode toks = resiSpec toks := by
+  unfold resiFormOK at h
+  split at h <;> simp_all [resiDecode, resiSpec]
+
+example : resiFormOK [.num 5, .word "TOL", .num 7] = true ∧
+    resiDecode [.num 5, .word "TOL", .num 7] = { cls := "TOL", num := 5, alias := some 7, chain := none } := by
+  decide +kernel
+/-- outside the table of forms the decoder is order dependent: a non-positive number is overwritten by the "alias" -/
+example : resiDecode [.num (-3), .word "X", .num 7] ≠ resiSpec [.num (-3), .word "X", .num 7] := by decide +kernel
+
 end Shelx.C03
